@@ -22,7 +22,8 @@ def main():
     try:
         mod = importlib.import_module("harness." + pid.lower())
         if a.replay:
-            return mod.replay(a.replay)
+            from . import replaytool
+            return replaytool.replay(pid, a.replay)
         chk = core.Check(pid, a.tier, seed)
         return mod.main(chk)
     except core.MachineryFailure as e:
